@@ -23,6 +23,7 @@ type c03Params struct {
 	Yields  int      // scheduling points inside each handler between enter and exit
 	SleepMs int      // virtual sleep inside handlers (handler "duration")
 	ChanCap int      // 0 = the real queue capacity (32); 2 = capacity-scaled queues, so that a handful of lines is a backlog
+	Reg     bool     // a slow foreground REGISTER handler, and the server's lines are already waiting when the connection is made: the caller of Connect dispatches REGISTER while the event loop delivers lines
 	EOL     string   // "" = every line ends in CR LF | "lf" = bare LF | "mixed" = alternating, with empty lines in between
 }
 
@@ -37,6 +38,9 @@ func (p c03Params) name() string {
 	}
 	if p.EOL != "" {
 		n += "/eol=" + p.EOL
+	}
+	if p.Reg {
+		n += "/register-handler"
 	}
 	return n
 }
@@ -77,6 +81,7 @@ func c03Scenario(p c03Params) *explore.Scenario {
 	}
 	sc.Params["chancap"] = p.ChanCap
 	sc.Params["eol"] = p.EOL
+	sc.Params["register_handler"] = p.Reg
 	sc.Params["sleep_ms"] = p.SleepMs
 	sc.Main = func(env *vx.Env) {
 		c := NewClient("me", nil)
@@ -114,17 +119,21 @@ func c03Scenario(p c03Params) *explore.Scenario {
 		c.HandleFunc(client.DISCONNECTED, func(conn *client.Conn, line *client.Line) {
 			vx.Observe("ev", "DISCONNECTED-enter")
 		})
-		var vc *vx.Conn
-		env.ConnSetup = func(x *vx.Conn) {
-			vc = x
-			if p.Cuts {
-				x.CutMenu = cutMenu
+		if p.Reg {
+			// REGISTER is outside the claim, but what it does to the other lines' handlers is not
+			nreg := 2
+			if p.Verbs[0] != "PRIVMSG" && p.Verbs[0] != "001" {
+				nreg = 1 // the first line has one foreground handler: one REGISTER handler finishing early is enough to matter
 			}
-		}
-		ctx, cancel := context.WithCancel(context.Background())
-		srvDone := vx.NewEvent("server-done")
-		if err := c.ConnectContext(ctx); err != nil {
-			return
+			for i := 0; i < nreg; i++ {
+				c.HandleFunc(client.REGISTER, func(conn *client.Conn, line *client.Line) {
+					vx.Observe("reg", "REGISTER-enter")
+					for y := 0; y < 3+p.Yields; y++ {
+						vx.Yield()
+					}
+					vx.Observe("reg", "REGISTER-exit")
+				})
+			}
 		}
 		eol := func(i int) string {
 			switch p.EOL {
@@ -136,8 +145,29 @@ func c03Scenario(p c03Params) *explore.Scenario {
 			}
 			return "\r\n"
 		}
+		var vc *vx.Conn
+		env.ConnSetup = func(x *vx.Conn) {
+			vc = x
+			if p.Cuts {
+				x.CutMenu = cutMenu
+			}
+			if p.Reg {
+				var sb strings.Builder
+				for i, l := range lines {
+					sb.WriteString(l + eol(i))
+				}
+				x.Preload(sb.String())
+			}
+		}
+		ctx, cancel := context.WithCancel(context.Background())
+		srvDone := vx.NewEvent("server-done")
+		if err := c.ConnectContext(ctx); err != nil {
+			return
+		}
 		srv := env.Go("server", func() {
-			if p.Segs == "each" {
+			if p.Reg {
+				// already preloaded
+			} else if p.Segs == "each" {
 				for i, l := range lines {
 					vc.Send(l + eol(i))
 				}
@@ -398,6 +428,15 @@ func init() {
 			for _, eol := range []string{"lf", "mixed"} {
 				for _, segs := range []string{"one", "each"} {
 					jobs = append(jobs, ExploreJob("C03", ExploreSpec{Sc: c03Scenario(c03Params{Verbs: patterns[0], End: "quiet-eof", Segs: segs, EOL: eol, Cuts: true}), Variants: []int{1, 3}, Budgets: []explore.Budget{{0, 0}, {1, 0}, {0, 1}, {1, 1}}, Cache: true}, 20))
+				}
+			}
+			// lines waiting at connect time, delivered while the caller of Connect is still dispatching REGISTER to slow handlers
+			for _, pat := range [][]string{{"PRIVMSG", "001", "PRIVMSG"}, {"NOTICE", "PRIVMSG", "PING"}, {"PING", "NOTICE", "FOO"}} {
+				for _, end := range []string{"quiet-eof", "eof"} {
+					// handlers with scheduling points only, and handlers that take (virtual) time: a line's handler is then
+					// still inside when the REGISTER handlers are done
+					jobs = append(jobs, ExploreJob("C03", ExploreSpec{Sc: c03Scenario(c03Params{Verbs: pat, End: end, Segs: "one", Yields: 1, Reg: true}), Variants: []int{1, 2, 3}, Budgets: budgets, Cache: true}, 30))
+					jobs = append(jobs, ExploreJob("C03", ExploreSpec{Sc: c03Scenario(c03Params{Verbs: pat, End: end, Segs: "one", SleepMs: 5, Reg: true}), Variants: []int{1, 2, 3}, Budgets: budgets, Cache: true}, 30))
 				}
 			}
 			// a welcome line that is just ":server 001 nick"
